@@ -1,5 +1,17 @@
-/* C37 test library: two functions, two globals.  Every history dlopen()s a
-   private copy of the compiled file so that dlclose() really unmaps it. */
+/* C37 test library.  Every history dlopen()s a private copy of the compiled file
+   so that dlclose() really unmaps it.
+
+   c37_v / c37_w / c37_f / c37_g   the base alphabet (two scalar globals, two functions)
+   c37_arr ... c37_va, c37_k       one symbol per *kind* (array, struct, pointer, function
+                                   pointer, array of unknown length in the cdef, variadic
+                                   function, non-integer constant): the "kinds" family binds
+                                   the letters v / f of the alphabet to one of them.  Every
+                                   variable kind starts with the observable value 10.
+   c37_x / c37_h                   declared to cffi only by a *later* ffi.cdef() (family cdef-more)
+
+   No libc is used (the object is linked with -nostdlib): variadic access goes through
+   the compiler builtins.  The same source, with the prefix c37_ replaced by c37n_, is
+   also loaded once with RTLD_GLOBAL for the ffi.dlopen(None) modes. */
 int c37_v = 10;
 long c37_w = 20;
 
@@ -11,4 +23,35 @@ int c37_f(int x)
 long c37_g(long x)
 {
     return 2 * x + c37_w;
+}
+
+long c37_arr[4] = {10, 11, 12, 13};
+
+struct c37_s { int a; long b; };
+struct c37_s c37_st = {10, 21};
+
+static int c37_cell = 10;
+int *c37_p = &c37_cell;
+
+int (*c37_fp)(int) = c37_f;
+
+long c37_ua[3] = {10, 5, 6};
+
+const double c37_k = 2.5;
+
+int c37_va(int n, ...)
+{
+    __builtin_va_list ap;
+    int r;
+    __builtin_va_start(ap, n);
+    r = n + __builtin_va_arg(ap, int) + c37_v;
+    __builtin_va_end(ap);
+    return r;
+}
+
+int c37_x = 30;
+
+int c37_h(int x)
+{
+    return x + c37_x;
 }
